@@ -9,7 +9,15 @@ pub mod c08;
 pub mod c09;
 pub mod c10;
 pub mod c11;
+pub mod c12;
+pub mod c13;
 pub mod c14;
+pub mod c15;
+pub mod c16;
+pub mod c17;
+pub mod c18;
+pub mod c19;
+pub mod c20;
 pub mod common;
 pub mod exempt;
 pub mod generic;
@@ -17,7 +25,7 @@ pub mod generic;
 use crate::engine::Property;
 
 pub fn all_ids() -> Vec<&'static str> {
-    vec!["C04", "C06"]
+    vec!["C01","C02","C03","C04","C05","C06","C07","C08","C09","C10","C11","C12","C13","C14","C15","C16","C17","C18","C19","C20"]
 }
 
 pub fn build(id: &str) -> Option<Property> {
@@ -33,7 +41,15 @@ pub fn build(id: &str) -> Option<Property> {
         "C09" => Some(c09::property()),
         "C10" => Some(c10::property()),
         "C11" => Some(c11::property()),
+        "C12" => Some(c12::property()),
+        "C13" => Some(c13::property()),
         "C14" => Some(c14::property()),
+        "C15" => Some(c15::property()),
+        "C16" => Some(c16::property()),
+        "C17" => Some(c17::property()),
+        "C18" => Some(c18::property()),
+        "C19" => Some(c19::property()),
+        "C20" => Some(c20::property()),
         _ => None,
     }
 }
